@@ -270,7 +270,7 @@ def run_check(prop, tier, seed):
     print("KNOWN-FINDING: property=%s %s [%s; %d case(s)]" % (
         pid, known_open[key]["what"], key, len(by_key[key])))
   replay_paths = []
-  for key in new_keys[:25]:
+  for key in new_keys[:80]:
     i, v = by_key[key][0]
     path = write_replay(pid, cases[i], v)
     replay_paths.append(path)
@@ -278,8 +278,8 @@ def run_check(prop, tier, seed):
     print("  signature: %s  (%d case(s))%s" % (
         key, len(by_key[key]), "  [listed as fixed: it has returned]" if key in known_fixed else ""))
     print("  what: %s" % str(v.get("what"))[:400])
-  if len(new_keys) > 25:
-    print("  ... and %d more distinct signatures" % (len(new_keys) - 25))
+  if len(new_keys) > 80:
+    print("  ... and %d more distinct signatures" % (len(new_keys) - 80))
 
   # ---- evidence ----------------------------------------------------------------------
   wall = time.time() - t0
@@ -300,7 +300,7 @@ def run_check(prop, tier, seed):
       "determinism_rechecks": len(again),
       "caps_hit": caps,
       "known_findings_observed": known_seen,
-      "new_violation_signatures": new_keys[:25],
+      "new_violation_signatures": new_keys[:80],
       "technique": getattr(prop, "TECHNIQUE", ""),
       "repo_head": head,
       "repo_worktree_diff_sha256_16": diffh,
